@@ -238,7 +238,7 @@ func c19Configs(thorough bool) []c19Config {
 	for i := range cfgs {
 		cfgs[i].MaxDev = 1
 		if thorough {
-			cfgs[i].MaxDev = 2
+			cfgs[i].MaxDev = 3
 		}
 	}
 	return cfgs
